@@ -167,7 +167,13 @@ def run(ctx):
     def part_bursts(c):
         scen.run_family(c, [], names=NAMES, allow=(), mc_invariants=[], mc_properties=[], per_shape=0, depth=1, label="c03burst", extra_scenarios=bursts)
 
-    parts = [part_families, part_bursts, regkernel.run, regkernel.run_closing, regkernel.run_stopping]
+    def part_proofs(c):
+        # the kernels' safety invariants for ANY number of submitters and any flavours (TLAPS);
+        # TLC decides them - and liveness, and NoneLost - for two or three
+        from .. import tlaps
+        c.extra["tlaps_proofs"] = [tlaps.prove(m) for m in ("RegistrationProofs", "ClosingProofs", "StoppingProofs")]
+
+    parts = [part_families, part_bursts, regkernel.run, regkernel.run_closing, regkernel.run_stopping, part_proofs]
     subs = [ctx.child() for _ in parts]
     with ThreadPoolExecutor(max_workers=len(parts)) as ex:
         futs = [ex.submit(fn, c) for fn, c in zip(parts, subs)]
